@@ -2,7 +2,7 @@
 import re
 
 from .. import mir
-from ..mir import short, last, strip, walk, norm
+from ..mir import short, last, strip, walk, norm, is_call
 
 INTERIOR = re.compile(
     r"\b(UnsafeCell|Cell|RefCell|OnceCell|LazyCell|SyncUnsafeCell|Atomic\w+|Mutex|RwLock|OnceLock|LazyLock|"
@@ -134,3 +134,21 @@ def closure_uses(cx, crate, body):
             if e[0] == "closure" and e[1] == body.path:
                 out.append((pb, i, t, ai))
     return out
+
+
+def resolve_state(cx, crate, body, e, depth=0):
+    """Resolve a parse-state expression to its origin: clones are transparent (clone(S) == S for the
+    cursor), upvars are followed up the closure chain.  Returns (body, expr)."""
+    e = norm(e)
+    for _ in range(12):
+        if is_call(e, "clone") and len(e[2]) == 1:
+            e = e[2][0]
+            continue
+        if e[0] == "upvar" and body.is_closure:
+            nb, ne = capture_root(cx, crate, body, e)
+            if nb is body and ne == e:
+                break
+            body, e = nb, ne
+            continue
+        break
+    return body, e
